@@ -189,6 +189,9 @@ func doBuild(cfg *propCfg, prop string) *build {
 		die2("inject accessor: %v", err)
 	}
 	if cfg.Instrument {
+		if err := copyFile(filepath.Join(verifDir, "inject", "zz_verif_e2.go.txt"), filepath.Join(rapidDir, "zz_verif_e2.go")); err != nil {
+			die2("inject e2 accessor: %v", err)
+		}
 		// verifrt package + yield rewrite (E2)
 		rt := filepath.Join(rapidDir, "verifrt")
 		_ = os.MkdirAll(rt, 0o755)
@@ -200,7 +203,7 @@ func doBuild(cfg *propCfg, prop string) *build {
 			}
 		}
 		cmd := exec.Command(filepath.Join(verifDir, "bin", "instrument"), "-dir", rapidDir)
-		cmd.Env = goEnv()
+		cmd.Env = append(goEnv(), "GOROOT=/opt/veriftools/go1.26.8")
 		out, err := cmd.CombinedOutput()
 		if err != nil {
 			os.RemoveAll(root)
@@ -210,9 +213,6 @@ func doBuild(cfg *propCfg, prop string) *build {
 	}
 	hdir := filepath.Join(root, "harness")
 	srcH := filepath.Join(verifDir, "harness")
-	if cfg.Engine == "E2" {
-		srcH = filepath.Join(verifDir, "harness2")
-	}
 	err = filepath.WalkDir(srcH, func(p string, d fs.DirEntry, err error) error {
 		if err != nil {
 			return err
@@ -227,7 +227,11 @@ func doBuild(cfg *propCfg, prop string) *build {
 		die2("copy harness: %v", err)
 	}
 	b.worker = filepath.Join(root, "worker.test")
-	args := []string{"test", "-c", "-tags", "verif", "-trimpath", "-o", b.worker}
+	tags := "verif"
+	if cfg.Instrument {
+		tags = "verif,e2"
+	}
+	args := []string{"test", "-c", "-tags", tags, "-trimpath", "-o", b.worker}
 	if cfg.Race {
 		args = append(args, "-race")
 	}
@@ -273,7 +277,7 @@ func (b *build) runWorker(spec Spec, gomaxprocs int, timeout time.Duration) ([]R
 	}
 	cmd := exec.Command(b.worker, "-test.run", "^TestWorker$", "-test.timeout", "0", "-test.count", "1")
 	cmd.Dir = wd
-	env := append(os.Environ(), "VERIF_SPEC="+specPath)
+	env := append(os.Environ(), "VERIF_SPEC="+specPath, "VERIF_RAPID_SRC="+filepath.Join(b.root, "rapid"))
 	if gomaxprocs > 0 {
 		env = append(env, fmt.Sprintf("GOMAXPROCS=%d", gomaxprocs))
 	}
@@ -695,8 +699,10 @@ func determinismSample(b *build, prop, tier string, seed uint64, all []Result) i
 				mism = append(mism, fmt.Sprintf("idx %d: rerun failed: %v", idx, err))
 				return
 			}
-			if res[0].Hash != byIdx[idx].Hash || len(res[0].Viols) != len(byIdx[idx].Viols) {
-				mism = append(mism, fmt.Sprintf("idx %d: history hash %x vs %x", idx, res[0].Hash, byIdx[idx].Hash))
+			// race reports are emitted once per process by the detector: they are attributed to the first run that
+			// exhibits them and are therefore not part of the per-run determinism comparison
+			if res[0].Hash != byIdx[idx].Hash || nonRace(res[0].Viols) != nonRace(byIdx[idx].Viols) {
+				mism = append(mism, fmt.Sprintf("idx %d: history hash %x vs %x; violations %v vs %v", idx, res[0].Hash, byIdx[idx].Hash, sigs(res[0].Viols), sigs(byIdx[idx].Viols)))
 			}
 		}(idx, i)
 	}
@@ -706,6 +712,24 @@ func determinismSample(b *build, prop, tier string, seed uint64, all []Result) i
 		return 2
 	}
 	return 0
+}
+
+func sigs(vs []Violation) []string {
+	var out []string
+	for _, v := range vs {
+		out = append(out, v.Rule+"/"+v.Sig)
+	}
+	return out
+}
+
+func nonRace(vs []Violation) int {
+	n := 0
+	for _, v := range vs {
+		if !strings.HasPrefix(v.Sig, "race:") {
+			n++
+		}
+	}
+	return n
 }
 
 func aggregate(b *build, prop string, cfg *propCfg, tier string, seed uint64, all []Result, start time.Time, buildS, searchS float64) int {
